@@ -103,12 +103,18 @@ def plan_c04(tier, seed):
         for g in ("g2", "g3", "g7", "g8"):
             add(g, 2, 1, 2, "cmd")
         add("g12", 3, 1, 2); add("g12", 4, 2, 2)
-    return {"level": "model_checking", "native": True, "stages": [lambda ctx, prev: jobs, maporder_stage("C04", o, tier)],
+    # memory-level pass: on the race-instrumented build every map operation / mutable-field access is a
+    # scheduling point too, so check-then-act sequences on shared state outside a lock are interleaved
+    for (g, i, m) in ([("g5", 1, 2), ("g4", 1, 2)] if tier == "quick" else [("g5", 1, 2), ("g4", 1, 2), ("g5", 2, 2), ("g5b", 1, 2), ("g7", 1, 2), ("g8b", 1, 2), ("g6", 1, 2)]):
+        j = wf("C04", g, i, 1, m, "func", oracles=o, events_dep=False, tier=tier, race=True, id=f"C04-mem-{g}-i{i}-m{m}")
+        j["no_race_report"] = True
+        jobs.append(with_delay_fallback(j, 1 if tier == "quick" else 2))
+    return {"level": "model_checking", "native": True, "race_too": True, "stages": [lambda ctx, prev: jobs, maporder_stage("C04", o, tier)],
             "rule": "every Mazurkiewicz trace (DPOR + sleep sets) of each scenario x configuration; delay bound 2 where the search does not close; MAPORDER pass: each map-range site forced to every other order on the default schedule with <= 1 delay",
             "assumptions": BASE_ASSUMPTIONS + ["multi-in-port processes receive equally long streams; at most one process without out-ports"]}
 
 
-def maporder_stage(prop, oracles, tier, graphs=None):
+def maporder_stage(prop, oracles, tier, graphs=None, per_job=False):
     """second pass: for every range-over-map site with >= 2 keys seen in pass 1 of the small
     scenarios, force every other order of that one site and explore (delay bound 1)."""
     def stage(ctx, prev):
@@ -116,16 +122,20 @@ def maporder_stage(prop, oracles, tier, graphs=None):
         seen = set()
         for r in prev:
             j = r["job"]
-            if j.get("_maporder") or not r.get("map_sites") or j["mode"] != "dpor":
+            if j.get("_maporder") or not r.get("map_sites") or j["mode"] != "dpor" or j.get("no_race_report"):
                 continue
             sc = j["scen"]
-            if sc["items"] > (1 if tier == "quick" else 2) or sc["max"] > 2:
+            if (sc["items"] > (1 if tier == "quick" else 2) and sc["graph"] != "gjoin3") or sc["max"] > 2:
                 continue
-            if tier == "quick" and sc["graph"] not in ("g3", "g4", "g7", "g5"):
+            if graphs is not None:
+                if sc["graph"] not in graphs:
+                    continue
+            elif sc["graph"] == "gjoin3" or (tier == "quick" and sc["graph"] not in ("g3", "g4", "g7", "g5")):
                 continue
-            if (sc["graph"], sc["items"], sc["max"]) in seen:
+            key = (sc["graph"], sc["items"], sc["max"], j["id"] if per_job else "")
+            if key in seen:
                 continue
-            seen.add((sc["graph"], sc["items"], sc["max"]))
+            seen.add(key)
             for site in r["map_sites"]:
                 for v in range(1, site["variants"]):
                     nj = copy.deepcopy(j)
@@ -249,6 +259,10 @@ def plan_c07(tier, seed):
     for mx in (1, 2):
         for cores in ([mx + 1], [1, mx + 1], [mx + 2, 1]):
             jobs.append(wf("C07", "g13", 1, 1, mx, oracles=["nohang", "c07-oversize"], tier=tier, cores=cores, events_dep=False, id=f"C07-oversize-m{mx}-c{''.join(map(str, cores))}"))
+        # the oversize process in every position: alone, mid-stream, last without out-ports (it then is the
+        # workflow's driver), next to a leaf that ends in the sink
+        for g, cores in (("g2", [mx + 1]), ("g11", [1, mx + 1]), ("g11", [mx + 1, 1]), ("g10b", [1, 1, mx + 1]), ("g3", [1, mx + 1])):
+            jobs.append(wf("C07", g, 1, 1, mx, oracles=["nohang", "c07-oversize"], tier=tier, cores=cores, events_dep=False, id=f"C07-oversize-{g}-m{mx}-c{''.join(map(str, cores))}"))
     return {"level": "model_checking", "stages": [lambda ctx, prev: jobs],
             "rule": "all multisets of CoresPerTask over k ready tasks x every interleaving of the token-by-token acquisition (DPOR closed): no deadlock state; barrier variants: k tasks with sum(cores) <= max rendezvous inside their bodies, so a library that serialises them deadlocks; oversize CoresPerTask: exit != 0 and no task of that process starts, in every schedule",
             "assumptions": BASE_ASSUMPTIONS}
@@ -665,7 +679,7 @@ def plan_c02(tier, seed):
     o = ["nohang", "clean", "c02", "c04"]
     def stage1(ctx, prev):
         jobs = []
-        combos = [("g2", 2, 2, "cmd"), ("g3", 1, 1, "cmd"), ("g3", 2, 1, "func"), ("g7", 1, 2, "cmd"), ("g8", 1, 1, "cmd"), ("g6b", 2, 1, "func"), ("g3", 1, 1, "cmd", "absout"), ("g2", 1, 1, "cmd", "subdir")]
+        combos = [("g2", 2, 2, "cmd"), ("g3", 1, 1, "cmd"), ("g3", 2, 1, "func"), ("g7", 1, 2, "cmd"), ("g8", 1, 1, "cmd"), ("g6b", 2, 1, "func"), ("g3", 1, 1, "cmd", "absout"), ("g2", 1, 1, "cmd", "subdir"), ("g7b", 1, 2, "cmd")]
         if tier != "quick":
             combos += [("g3", 2, 2, "cmd"), ("g6", 1, 2, "cmd"), ("g7", 2, 2, "func"), ("g4", 1, 2, "cmd"), ("g8", 2, 2, "func")]
         for combo in combos:
@@ -730,9 +744,13 @@ def plan_c02(tier, seed):
             nj["_fallback_delay"] = 2
             jobs.append(nj)
         return jobs
-    return {"level": "fault_enumeration", "stages": [stage1, stage2, stage3],
+    mo = maporder_stage("C02", o, tier, graphs=("g7", "g7b"), per_job=True)
+    def stage4(ctx, prev):
+        # the skip decision walks the task's out-IPs in map order: every other order, for histories of multi-output tasks
+        return mo(ctx, [r for r in prev if r["job"].get("pre") and r["job"].get("pre_audit") and "-ref-" in r["job"]["id"]])
+    return {"level": "fault_enumeration", "stages": [stage1, stage2, stage3, stage4],
             "rule": "histories: every non-empty subset of the workflow's tasks has its outputs pre-placed on disk (reference bytes / arbitrary user bytes, with / without .audit.json) x every Mazurkiewicz trace of the run; plus 'complete run, run again in place'; oracle: no start event for a task with a pre-existing output, (inode, mtime_ns, size, bytes) of every pre-existing file identical before/after, no mutating FS call ever targets it (online monitor in the FS seam), downstream content = reference function of the pre-existing bytes; non-trivial = distinct (history, terminal outcome) pairs",
-            "assumptions": BASE_ASSUMPTIONS + ["multi-output tasks have all or none of their outputs pre-existing (the partial case is C03's concern)"],
+            "assumptions": BASE_ASSUMPTIONS + ["multi-output tasks have all or none of their outputs pre-existing, except in graph g7b where the consumed output alone pre-exists (a partial history whose missing output is consumed downstream makes the consumer fail: C09's concern)", "range-over-map orders: every other order of each site is forced for the g7/g7b histories (delay bound 0/1)"],
             "distinct_nontrivial_fn": lambda rs: sum((r.get("distinct_outcomes") or 0) for r in rs if r["job"].get("pre") or r["job"].get("seed_dir"))}
 
 
